@@ -4,8 +4,9 @@ Import ListNotations.
 Require Import MV.Lower.Lang MV.Lower.LangProofs MV.Lower.Passes.
 
 Scheme stmt_ind3 := Induction for stmt Sort Prop
-  with block_ind3 := Induction for block Sort Prop.
-Combined Scheme stmt_block_ind3 from stmt_ind3, block_ind3.
+  with block_ind3 := Induction for block Sort Prop
+  with blocks_ind3 := Induction for blocks Sort Prop.
+Combined Scheme stmt_block_ind3 from stmt_ind3, block_ind3, blocks_ind3.
 
 (* a flag of the continue pass *)
 Definition ckind (f : flag) : bool := Nat.eqb (f mod 3) 1.
@@ -55,43 +56,60 @@ Proof. unfold upd. rewrite Nat.eqb_refl. reflexivity. Qed.
 Lemma upd_other s f v h : h <> f -> upd s f v h = s h.
 Proof. intros N. unfold upd. destruct (Nat.eqb h f) eqn:E; [apply Nat.eqb_eq in E; congruence | reflexivity]. Qed.
 
-Lemma cont_mono :
-  (forall st c k, snd (fst (cont_stmt c k st)) >= k) /\ (forall b c k cur, snd (fst (cont_block c k cur b)) >= k).
+Lemma cont_mono3 :
+  (forall st c k u, snd (fst (cont_stmt c k u st)) >= k) /\ (forall b c k u cur, snd (fst (cont_block c k u cur b)) >= k)
+  /\ (forall h c k u, snd (fst (cont_blocks c k u h)) >= k).
 Proof.
   apply stmt_block_ind3.
-  - intros l c k; simpl; lia.
-  - intros f0 v c k; simpl; lia.
-  - intros t b1 IH1 b2 IH2 c k; simpl.
-    destruct (cont_block c k false b1) as [[b1' k1] u1] eqn:E1. destruct (cont_block c k1 false b2) as [[b2' k2] u2] eqn:E2.
-    simpl. pose proof (IH1 c k false) as A. pose proof (IH2 c k1 false) as B. rewrite E1 in A; rewrite E2 in B; simpl in *; lia.
-  - intros t body IH1 orelse IH2 c k; simpl.
-    destruct (cont_block (cflag k) (S k) false body) as [[b1' k1] u1] eqn:E1.
-    destruct (cont_block c k1 false orelse) as [[b2' k2] u2] eqn:E2.
-    pose proof (IH1 (cflag k) (S k) false) as A. pose proof (IH2 c k1 false) as B. rewrite E1 in A; rewrite E2 in B; simpl in *. lia.
-  - intros c k; simpl; lia.
-  - intros c k; simpl; lia.
-  - intros l c k; simpl; lia.
-  - intros c k cur; simpl; lia.
-  - intros st IH1 r IH2 c k cur; simpl.
-    destruct (cont_stmt c k st) as [[s' k1] u1] eqn:E1. destruct (cont_block c k1 u1 r) as [[r' k2] u2] eqn:E2.
-    pose proof (IH1 c k) as A. pose proof (IH2 c k1 u1) as B. rewrite E1 in A; rewrite E2 in B; simpl in *; lia.
+  - intros l c k u; simpl; lia.
+  - intros f0 v c k u; simpl; lia.
+  - intros t b1 IH1 b2 IH2 c k u; simpl.
+    destruct (cont_block c k u false b1) as [[b1' k1] u1] eqn:E1. destruct (cont_block c k1 (u || u1) false b2) as [[b2' k2] u2] eqn:E2.
+    simpl. pose proof (IH1 c k u false) as A. pose proof (IH2 c k1 (u || u1) false) as B. rewrite E1 in A; rewrite E2 in B; simpl in *; lia.
+  - intros t body IH1 orelse IH2 c k u; simpl.
+    destruct (cont_block (cflag k) (S k) false false body) as [[b1' k1] u1] eqn:E1.
+    destruct (cont_block c k1 u false orelse) as [[b2' k2] u2] eqn:E2.
+    pose proof (IH1 (cflag k) (S k) false false) as A. pose proof (IH2 c k1 u false) as B. rewrite E1 in A; rewrite E2 in B; simpl in *. lia.
+  - intros c k u; simpl; lia.
+  - intros c k u; simpl; lia.
+  - intros l c k u; simpl; lia.
+  - (* STry *) intros body IH1 hs IH2 orelse IH3 final IH4 c k u; simpl.
+    destruct (cont_block c k u false body) as [[b1 k1] u1] eqn:E1. destruct (cont_block c k1 (u || u1) false orelse) as [[b2 k2] u2] eqn:E2.
+    destruct (cont_block c k2 (u || u1 || u2) false final) as [[b3 k3] u3] eqn:E3. destruct (cont_blocks c k3 (u || u1 || u2 || u3) hs) as [[b4 k4] u4] eqn:E4.
+    pose proof (IH1 c k u false) as A1. pose proof (IH3 c k1 (u || u1) false) as A2. pose proof (IH4 c k2 (u || u1 || u2) false) as A3. pose proof (IH2 c k3 (u || u1 || u2 || u3)) as A4.
+    rewrite E1 in A1; rewrite E2 in A2; rewrite E3 in A3; rewrite E4 in A4; simpl in *; lia.
+  - (* SWith *) intros l body IH c k u; simpl.
+    destruct (cont_block c k u false body) as [[b1 k1] u1] eqn:E1. pose proof (IH c k u false) as A. rewrite E1 in A; simpl in *; lia.
+  - (* SRaise *) intros l c k u; simpl; lia.
+  - intros c k u cur; simpl; lia.
+  - intros st IH1 r IH2 c k u cur; simpl.
+    destruct (cont_stmt c k u st) as [[s' k1] u1] eqn:E1. destruct (cont_block c k1 (u || u1) u1 r) as [[r' k2] u2] eqn:E2.
+    pose proof (IH1 c k u) as A. pose proof (IH2 c k1 (u || u1) u1) as B. rewrite E1 in A; rewrite E2 in B; simpl in *; lia.
+  - intros c k u; simpl; lia.
+  - intros b IH1 r IH2 c k u; simpl.
+    destruct (cont_block c k u false b) as [[b' k1] u1] eqn:E1. destruct (cont_blocks c k1 (u || u1) r) as [[r' k2] u2] eqn:E2.
+    pose proof (IH1 c k u false) as A. pose proof (IH2 c k1 (u || u1)) as B. rewrite E1 in A; rewrite E2 in B; simpl in *; lia.
 Qed.
+
+Lemma cont_mono :
+  (forall st c k u, snd (fst (cont_stmt c k u st)) >= k) /\ (forall b c k u cur, snd (fst (cont_block c k u cur b)) >= k).
+Proof. split; [exact (proj1 cont_mono3) | exact (proj1 (proj2 cont_mono3))]. Qed.
 
 Definition cpost (c : flag) (k : nat) (o : outcome) (hit : bool) (sl sl' : store) : Prop :=
   (o = OCont -> sl' c = true /\ hit = true) /\ (o <> OCont -> sl' c = sl c) /\
   (forall h, ckind h = true -> outside_c k h -> h <> c -> sl' h = sl h).
 
 Definition cok_stmt (st : stmt) (s : store) (d : decisions) (tr : list label) (o : outcome) (s' : store) (d' : decisions) : Prop :=
-  clean_stmt st = true -> forall c k sl, outside_c k c -> ckind c = true -> agree s sl ->
-    (snd (cont_stmt c k st) = true -> sl c = false) ->
-    exists sl', run_block (fst (fst (cont_stmt c k st))) sl d tr (co o) sl' d' /\ agree s' sl'
-                /\ cpost c k o (snd (cont_stmt c k st)) sl sl'.
+  clean_stmt st = true -> forall c k u sl, outside_c k c -> ckind c = true -> agree s sl ->
+    (snd (cont_stmt c k u st) = true -> sl c = false) ->
+    exists sl', run_block (fst (fst (cont_stmt c k u st))) sl d tr (co o) sl' d' /\ agree s' sl'
+                /\ cpost c k o (snd (cont_stmt c k u st)) sl sl'.
 
 Definition cok_block (b : block) (s : store) (d : decisions) (tr : list label) (o : outcome) (s' : store) (d' : decisions) : Prop :=
-  clean_block b = true -> forall c k cur sl, outside_c k c -> ckind c = true -> agree s sl ->
-    (cur || snd (cont_block c k cur b) = true -> sl c = false) ->
-    exists sl', run_block (fst (fst (cont_block c k cur b))) sl d tr (co o) sl' d' /\ agree s' sl'
-                /\ cpost c k o (snd (cont_block c k cur b)) sl sl'.
+  clean_block b = true -> forall c k u cur sl, outside_c k c -> ckind c = true -> agree s sl ->
+    (cur || snd (cont_block c k u cur b) = true -> sl c = false) ->
+    exists sl', run_block (fst (fst (cont_block c k u cur b))) sl d tr (co o) sl' d' /\ agree s' sl'
+                /\ cpost c k o (snd (cont_block c k u cur b)) sl sl'.
 
 Lemma cpost_refl c k o sl : o <> OCont -> cpost c k o false sl sl.
 Proof. intros N; split; [congruence|]. split; reflexivity. Qed.
@@ -99,11 +117,11 @@ Proof. intros N; split; [congruence|]. split; reflexivity. Qed.
 Lemma outside_c_mono k k' f : k <= k' -> outside_c k f -> outside_c k' f.
 Proof. intros L O j Hj; apply O; lia. Qed.
 
-Lemma skip_rest r c k sl d : sl c = true ->
-  run_block (fst (fst (cont_block c k true r))) sl d [] ONormal sl d.
+Lemma skip_rest r c k u sl d : sl c = true ->
+  run_block (fst (fst (cont_block c k u true r))) sl d [] ONormal sl d.
 Proof.
   intros H. destruct r as [|st r]; simpl; [constructor|].
-  destruct (cont_stmt c k st) as [[st' k1] h1]. destruct (cont_block c k1 h1 r) as [[r' k2] h2]. simpl.
+  destruct (cont_stmt c k u st) as [[st' k1] h1]. destruct (cont_block c k1 (u || h1) h1 r) as [[r' k2] h2]. simpl.
   apply run_one. change (@nil label) with (@nil label ++ []).
   eapply RIf; [simpl; rewrite H; reflexivity | constructor].
 Qed.
@@ -116,13 +134,13 @@ Proof.
   eapply RIf; [simpl; rewrite (H eq_refl); reflexivity | exact R].
 Qed.
 
-Definition cloop_claim (st : stmt) (s : store) (c : flag) (k : nat) (d : decisions) (tr : list label) (o : outcome)
+Definition cloop_claim (st : stmt) (s : store) (c : flag) (k : nat) (u : bool) (d : decisions) (tr : list label) (o : outcome)
            (s' : store) (d' : decisions) : Prop :=
   match st with
   | SWhile t body orelse =>
       let g := cflag k in
-      let '(body', k1, used) := cont_block g (S k) false body in
-      let '(orelse', k2, ho) := cont_block c k1 false orelse in
+      let '(body', k1, used) := cont_block g (S k) false false body in
+      let '(orelse', k2, ho) := cont_block c k1 u false orelse in
       forall sl, agree s sl -> (ho = true -> sl c = false) ->
         exists sl', run_stmt (SWhile t (if used then BCons (SSet g false) body' else body') orelse') sl d tr (co o) sl' d'
                     /\ agree s' sl' /\ cpost c k o ho sl sl'
@@ -144,39 +162,39 @@ Qed.
 
 Theorem cont_correct_all :
   (forall st s d tr o s' d', run_stmt st s d tr o s' d' ->
-      cok_stmt st s d tr o s' d' /\ (clean_stmt st = true -> forall c k, outside_c k c -> ckind c = true -> cloop_claim st s c k d tr o s' d')) /\
+      cok_stmt st s d tr o s' d' /\ (clean_stmt st = true -> forall c k u, outside_c k c -> ckind c = true -> cloop_claim st s c k u d tr o s' d')) /\
   (forall b s d tr o s' d', run_block b s d tr o s' d' -> cok_block b s d tr o s' d').
 Proof.
   apply run_mutind.
-  - (* atom *) intros l s d. split; [|intros; exact I]. intros _ c k sl Oc Kc A _. exists sl. simpl.
+  - (* atom *) intros l s d. split; [|intros; exact I]. intros _ c k u sl Oc Kc A _. exists sl. simpl.
     split; [apply run_one; constructor|]. split; [exact A | apply cpost_refl; discriminate].
-  - (* set *) intros f v s d. split; [|intros; exact I]. intros Cl c k sl Oc Kc A _. simpl in Cl. apply negb_true_iff in Cl.
+  - (* set *) intros f v s d. split; [|intros; exact I]. intros Cl c k u sl Oc Kc A _. simpl in Cl. apply negb_true_iff in Cl.
     exists (upd sl f v). simpl. split; [apply run_one; constructor|]. split; [apply agree_upd_clean, A|].
     assert (N : forall h, ckind h = true -> upd sl f v h = sl h) by (intros h Kh; apply upd_other; intros ->; congruence).
     split; [discriminate|]. split; [intros _; apply N, Kc | intros h Kh _ _; apply N, Kh].
-  - (* break *) intros s d. split; [|intros; exact I]. intros _ c k sl Oc Kc A _. exists sl. simpl.
+  - (* break *) intros s d. split; [|intros; exact I]. intros _ c k u sl Oc Kc A _. exists sl. simpl.
     split; [apply run_one; constructor|]. split; [exact A | apply cpost_refl; discriminate].
-  - (* continue *) intros s d. split; [|intros; exact I]. intros _ c k sl Oc Kc A _. exists (upd sl c true). simpl.
+  - (* continue *) intros s d. split; [|intros; exact I]. intros _ c k u sl Oc Kc A _. exists (upd sl c true). simpl.
     split; [apply run_one; constructor|]. split; [apply agree_upd_c; assumption|].
     split; [intros _; split; [apply upd_same | reflexivity]|]. split; [congruence|].
     intros h _ _ N. apply upd_other, N.
-  - (* return *) intros l s d. split; [|intros; exact I]. intros _ c k sl Oc Kc A _. exists sl. simpl.
+  - (* return *) intros l s d. split; [|intros; exact I]. intros _ c k u sl Oc Kc A _. exists sl. simpl.
     split; [apply run_one; constructor|]. split; [exact A | apply cpost_refl; discriminate].
   - (* if *)
-    intros t b1 b2 s d v tc d1 tr o s' d' Ec _ IH. split; [|intros; exact I]. intros Cl c k sl Oc Kc A Pre.
+    intros t b1 b2 s d v tc d1 tr o s' d' Ec _ IH. split; [|intros; exact I]. intros Cl c k u sl Oc Kc A Pre.
     simpl in Cl. apply andb_true_iff in Cl; destruct Cl as [Cl C2]. apply andb_true_iff in Cl; destruct Cl as [Ct C1].
     simpl in Pre |- *.
-    destruct (cont_block c k false b1) as [[b1' k1] h1] eqn:E1. destruct (cont_block c k1 false b2) as [[b2' k2] h2] eqn:E2.
-    assert (L1 : k <= k1) by (pose proof (proj2 cont_mono b1 c k false) as X; rewrite E1 in X; exact X).
+    destruct (cont_block c k u false b1) as [[b1' k1] h1] eqn:E1. destruct (cont_block c k1 (u || h1) false b2) as [[b2' k2] h2] eqn:E2.
+    assert (L1 : k <= k1) by (pose proof (proj2 cont_mono b1 c k u false) as X; rewrite E1 in X; exact X).
     simpl in Pre |- *. rewrite <- (ceval_agree t s sl d Ct A) in Ec.
     destruct v.
-    + destruct (IH C1 c k false sl Oc Kc A) as [sl' [R [A' Po]]].
+    + destruct (IH C1 c k u false sl Oc Kc A) as [sl' [R [A' Po]]].
       { rewrite E1; simpl. intros H; apply Pre; rewrite H; reflexivity. }
       rewrite E1 in R, Po; simpl in R, Po.
       exists sl'. split; [apply run_one; eapply RIf; [exact Ec | exact R]|]. split; [exact A'|].
       destruct Po as [P1 [P2 P3]]. split; [|split; assumption].
       intros E. destruct (P1 E) as [X ->]. split; [exact X | reflexivity].
-    + destruct (IH C2 c k1 false sl (outside_c_mono _ _ _ L1 Oc) Kc A) as [sl' [R [A' Po]]].
+    + destruct (IH C2 c k1 (u || h1) false sl (outside_c_mono _ _ _ L1 Oc) Kc A) as [sl' [R [A' Po]]].
       { rewrite E2; simpl. intros H; apply Pre; rewrite H; apply orb_true_r. }
       rewrite E2 in R, Po; simpl in R, Po.
       exists sl'. split; [apply run_one; eapply RIf; [exact Ec | exact R]|]. split; [exact A'|].
@@ -186,30 +204,30 @@ Proof.
       * intros h Kh Oh N. apply P3; [exact Kh | eapply outside_c_mono; [|exact Oh]; lia | exact N].
   - (* while: test false *)
     intros t body orelse s d tc d1 tr o s' d' Ec _ IHo.
-    assert (LC : clean_stmt (SWhile t body orelse) = true -> forall c k, outside_c k c -> ckind c = true ->
-                 cloop_claim (SWhile t body orelse) s c k d (tc ++ tr) o s' d').
-    { intros Cl c k Oc Kc. simpl in Cl. apply andb_true_iff in Cl; destruct Cl as [Cl Co]. apply andb_true_iff in Cl; destruct Cl as [Ct Cb].
-      simpl. destruct (cont_block (cflag k) (S k) false body) as [[body' k1] used] eqn:E1.
-      pose proof (IHo Co c k1 false) as IO.
-      destruct (cont_block c k1 false orelse) as [[orelse' k2] ho] eqn:E2.
-      assert (L1 : S k <= k1) by (pose proof (proj2 cont_mono body (cflag k) (S k) false) as X; rewrite E1 in X; exact X).
+    assert (LC : clean_stmt (SWhile t body orelse) = true -> forall c k u, outside_c k c -> ckind c = true ->
+                 cloop_claim (SWhile t body orelse) s c k u d (tc ++ tr) o s' d').
+    { intros Cl c k u Oc Kc. simpl in Cl. apply andb_true_iff in Cl; destruct Cl as [Cl Co]. apply andb_true_iff in Cl; destruct Cl as [Ct Cb].
+      simpl. destruct (cont_block (cflag k) (S k) false false body) as [[body' k1] used] eqn:E1.
+      pose proof (IHo Co c k1 u false) as IO.
+      destruct (cont_block c k1 u false orelse) as [[orelse' k2] ho] eqn:E2.
+      assert (L1 : S k <= k1) by (pose proof (proj2 cont_mono body (cflag k) (S k) false false) as X; rewrite E1 in X; exact X).
       intros sl A Pre. assert (L0 : k <= k1) by lia.
       destruct (IO sl (outside_c_mono _ _ _ L0 Oc) Kc A Pre) as [sl' [R [A' [P1 [P2 P3]]]]]. simpl in R, P1.
       exists sl'. rewrite <- (ceval_agree t s sl d Ct A) in Ec.
       split; [eapply RWhileEnd; [exact Ec | exact R]|]. split; [exact A'|].
       split; [exact P1|]. split; [exact P2|]. intros h Kh Oh N. apply P3; [exact Kh | eapply outside_c_mono; [|exact Oh]; lia | exact N]. }
-    split; [|exact LC]. intros Cl c k sl Oc Kc A Pre. specialize (LC Cl c k Oc Kc). simpl in LC, Pre |- *.
-    destruct (cont_block (cflag k) (S k) false body) as [[body' k1] used]. destruct (cont_block c k1 false orelse) as [[orelse' k2] ho].
+    split; [|exact LC]. intros Cl c k u sl Oc Kc A Pre. specialize (LC Cl c k u Oc Kc). simpl in LC, Pre |- *.
+    destruct (cont_block (cflag k) (S k) false false body) as [[body' k1] used]. destruct (cont_block c k1 u false orelse) as [[orelse' k2] ho].
     simpl in *. destruct (LC sl A Pre) as [sl' [R X]]. exists sl'. split; [apply run_one; exact R | exact X].
   - (* while: one more iteration *)
     intros t body orelse s d tc d1 tr o s1 d2 tr2 o2 s2 d3 Ec _ IHb Ho _ IHw.
-    assert (LC : clean_stmt (SWhile t body orelse) = true -> forall c k, outside_c k c -> ckind c = true ->
-                 cloop_claim (SWhile t body orelse) s c k d (tc ++ tr ++ tr2) o2 s2 d3).
-    { intros Cl c k Oc Kc. destruct IHw as [_ LW]. specialize (LW Cl c k Oc Kc).
+    assert (LC : clean_stmt (SWhile t body orelse) = true -> forall c k u, outside_c k c -> ckind c = true ->
+                 cloop_claim (SWhile t body orelse) s c k u d (tc ++ tr ++ tr2) o2 s2 d3).
+    { intros Cl c k u Oc Kc. destruct IHw as [_ LW]. specialize (LW Cl c k u Oc Kc).
       simpl in Cl. apply andb_true_iff in Cl; destruct Cl as [Cl Co]. apply andb_true_iff in Cl; destruct Cl as [Ct Cb].
-      simpl in LW |- *. pose proof (IHb Cb (cflag k) (S k) false) as IB.
-      destruct (cont_block (cflag k) (S k) false body) as [[body' k1] used] eqn:E1.
-      destruct (cont_block c k1 false orelse) as [[orelse' k2] ho] eqn:E2.
+      simpl in LW |- *. pose proof (IHb Cb (cflag k) (S k) false false) as IB.
+      destruct (cont_block (cflag k) (S k) false false body) as [[body' k1] used] eqn:E1.
+      destruct (cont_block c k1 u false orelse) as [[orelse' k2] ho] eqn:E2.
       intros sl A Pre.
       set (sl0 := if used then upd sl (cflag k) false else sl).
       assert (A0 : agree s sl0) by (unfold sl0; destruct used; [apply agree_upd_c; [apply ckind_cflag | exact A] | exact A]).
@@ -228,18 +246,18 @@ Proof.
       - split; [exact A2|]. split; [exact B1|]. split.
         + intros N. rewrite (B2 N), Kc1. exact S0c.
         + intros h Kh Oh N. rewrite (B3 h Kh Oh N), (Kh1 h Kh Oh N). apply S0h, Oh. }
-    split; [|exact LC]. intros Cl c k sl Oc Kc A Pre. specialize (LC Cl c k Oc Kc). simpl in LC, Pre |- *.
-    destruct (cont_block (cflag k) (S k) false body) as [[body' k1] used]. destruct (cont_block c k1 false orelse) as [[orelse' k2] ho].
+    split; [|exact LC]. intros Cl c k u sl Oc Kc A Pre. specialize (LC Cl c k u Oc Kc). simpl in LC, Pre |- *.
+    destruct (cont_block (cflag k) (S k) false false body) as [[body' k1] used]. destruct (cont_block c k1 u false orelse) as [[orelse' k2] ho].
     simpl in *. destruct (LC sl A Pre) as [sl' [R X]]. exists sl'. split; [apply run_one; exact R | exact X].
   - (* while: break *)
     intros t body orelse s d tc d1 tr s1 d2 Ec _ IHb.
-    assert (LC : clean_stmt (SWhile t body orelse) = true -> forall c k, outside_c k c -> ckind c = true ->
-                 cloop_claim (SWhile t body orelse) s c k d (tc ++ tr) ONormal s1 d2).
-    { intros Cl c k Oc Kc.
+    assert (LC : clean_stmt (SWhile t body orelse) = true -> forall c k u, outside_c k c -> ckind c = true ->
+                 cloop_claim (SWhile t body orelse) s c k u d (tc ++ tr) ONormal s1 d2).
+    { intros Cl c k u Oc Kc.
       simpl in Cl. apply andb_true_iff in Cl; destruct Cl as [Cl Co]. apply andb_true_iff in Cl; destruct Cl as [Ct Cb].
-      simpl. pose proof (IHb Cb (cflag k) (S k) false) as IB.
-      destruct (cont_block (cflag k) (S k) false body) as [[body' k1] used] eqn:E1.
-      destruct (cont_block c k1 false orelse) as [[orelse' k2] ho] eqn:E2.
+      simpl. pose proof (IHb Cb (cflag k) (S k) false false) as IB.
+      destruct (cont_block (cflag k) (S k) false false body) as [[body' k1] used] eqn:E1.
+      destruct (cont_block c k1 u false orelse) as [[orelse' k2] ho] eqn:E2.
       intros sl A Pre.
       set (sl0 := if used then upd sl (cflag k) false else sl).
       assert (A0 : agree s sl0) by (unfold sl0; destruct used; [apply agree_upd_c; [apply ckind_cflag | exact A] | exact A]).
@@ -255,18 +273,18 @@ Proof.
       - split; [exact A1|]. split; [discriminate|]. split.
         + intros _. rewrite Kc1. exact S0c.
         + intros h Kh Oh N. rewrite (Kh1 h Kh Oh N). apply S0h, Oh. }
-    split; [|exact LC]. intros Cl c k sl Oc Kc A Pre. specialize (LC Cl c k Oc Kc). simpl in LC, Pre |- *.
-    destruct (cont_block (cflag k) (S k) false body) as [[body' k1] used]. destruct (cont_block c k1 false orelse) as [[orelse' k2] ho].
+    split; [|exact LC]. intros Cl c k u sl Oc Kc A Pre. specialize (LC Cl c k u Oc Kc). simpl in LC, Pre |- *.
+    destruct (cont_block (cflag k) (S k) false false body) as [[body' k1] used]. destruct (cont_block c k1 u false orelse) as [[orelse' k2] ho].
     simpl in *. destruct (LC sl A Pre) as [sl' [R X]]. exists sl'. split; [apply run_one; exact R | exact X].
   - (* while: return *)
     intros t body orelse s d tc d1 tr s1 d2 Ec _ IHb.
-    assert (LC : clean_stmt (SWhile t body orelse) = true -> forall c k, outside_c k c -> ckind c = true ->
-                 cloop_claim (SWhile t body orelse) s c k d (tc ++ tr) ORet s1 d2).
-    { intros Cl c k Oc Kc.
+    assert (LC : clean_stmt (SWhile t body orelse) = true -> forall c k u, outside_c k c -> ckind c = true ->
+                 cloop_claim (SWhile t body orelse) s c k u d (tc ++ tr) ORet s1 d2).
+    { intros Cl c k u Oc Kc.
       simpl in Cl. apply andb_true_iff in Cl; destruct Cl as [Cl Co]. apply andb_true_iff in Cl; destruct Cl as [Ct Cb].
-      simpl. pose proof (IHb Cb (cflag k) (S k) false) as IB.
-      destruct (cont_block (cflag k) (S k) false body) as [[body' k1] used] eqn:E1.
-      destruct (cont_block c k1 false orelse) as [[orelse' k2] ho] eqn:E2.
+      simpl. pose proof (IHb Cb (cflag k) (S k) false false) as IB.
+      destruct (cont_block (cflag k) (S k) false false body) as [[body' k1] used] eqn:E1.
+      destruct (cont_block c k1 u false orelse) as [[orelse' k2] ho] eqn:E2.
       intros sl A Pre.
       set (sl0 := if used then upd sl (cflag k) false else sl).
       assert (A0 : agree s sl0) by (unfold sl0; destruct used; [apply agree_upd_c; [apply ckind_cflag | exact A] | exact A]).
@@ -282,18 +300,18 @@ Proof.
       - split; [exact A1|]. split; [discriminate|]. split.
         + intros _. rewrite Kc1. exact S0c.
         + intros h Kh Oh N. rewrite (Kh1 h Kh Oh N). apply S0h, Oh. }
-    split; [|exact LC]. intros Cl c k sl Oc Kc A Pre. specialize (LC Cl c k Oc Kc). simpl in LC, Pre |- *.
-    destruct (cont_block (cflag k) (S k) false body) as [[body' k1] used]. destruct (cont_block c k1 false orelse) as [[orelse' k2] ho].
+    split; [|exact LC]. intros Cl c k u sl Oc Kc A Pre. specialize (LC Cl c k u Oc Kc). simpl in LC, Pre |- *.
+    destruct (cont_block (cflag k) (S k) false false body) as [[body' k1] used]. destruct (cont_block c k1 u false orelse) as [[orelse' k2] ho].
     simpl in *. destruct (LC sl A Pre) as [sl' [R X]]. exists sl'. split; [apply run_one; exact R | exact X].
-  - (* nil *) intros s d _ c k cur sl Oc Kc A _. exists sl. simpl. split; [constructor|]. split; [exact A | apply cpost_refl; discriminate].
+  - (* nil *) intros s d _ c k u cur sl Oc Kc A _. exists sl. simpl. split; [constructor|]. split; [exact A | apply cpost_refl; discriminate].
   - (* cons, first statement completes *)
-    intros st r s d tr s1 d1 tr2 o2 s2 d2 _ IHs _ IHr Cl c k cur sl Oc Kc A Pre.
+    intros st r s d tr s1 d1 tr2 o2 s2 d2 _ IHs _ IHr Cl c k u cur sl Oc Kc A Pre.
     simpl in Cl. apply andb_true_iff in Cl; destruct Cl as [Cs Cr]. destruct IHs as [IHs _].
-    pose proof (IHs Cs c k sl Oc Kc A) as IS. simpl in Pre |- *.
-    destruct (cont_stmt c k st) as [[st' k1] h1] eqn:E1.
-    assert (L1 : k <= k1) by (pose proof (proj1 cont_mono st c k) as X; rewrite E1 in X; exact X).
-    pose proof (IHr Cr c k1 h1) as IR.
-    destruct (cont_block c k1 h1 r) as [[r' k2] h2] eqn:E2. simpl in *.
+    pose proof (IHs Cs c k u sl Oc Kc A) as IS. simpl in Pre |- *.
+    destruct (cont_stmt c k u st) as [[st' k1] h1] eqn:E1.
+    assert (L1 : k <= k1) by (pose proof (proj1 cont_mono st c k u) as X; rewrite E1 in X; exact X).
+    pose proof (IHr Cr c k1 (u || h1) h1) as IR.
+    destruct (cont_block c k1 (u || h1) h1 r) as [[r' k2] h2] eqn:E2. simpl in *.
     destruct IS as [sl1 [R1 [A1 [P1 [P2 P3]]]]].
     { intros H; apply Pre; rewrite H; simpl; apply orb_true_r. }
     assert (C1 : sl1 c = sl c) by (apply P2; discriminate).
@@ -306,12 +324,12 @@ Proof.
       * intros N. rewrite (Q2 N). exact C1.
       * intros h Kh Oh N. rewrite (Q3 h Kh (outside_c_mono _ _ _ L1 Oh) N). apply P3; assumption.
   - (* cons, first statement jumps *)
-    intros st r s d tr o s1 d1 _ IHs No Cl c k cur sl Oc Kc A Pre.
+    intros st r s d tr o s1 d1 _ IHs No Cl c k u cur sl Oc Kc A Pre.
     simpl in Cl. apply andb_true_iff in Cl; destruct Cl as [Cs Cr]. destruct IHs as [IHs _].
-    pose proof (IHs Cs c k sl Oc Kc A) as IS. simpl in Pre |- *.
-    destruct (cont_stmt c k st) as [[st' k1] h1] eqn:E1.
-    pose proof (skip_rest r c k1) as SK.
-    destruct (cont_block c k1 h1 r) as [[r' k2] h2] eqn:E2. simpl in *.
+    pose proof (IHs Cs c k u sl Oc Kc A) as IS. simpl in Pre |- *.
+    destruct (cont_stmt c k u st) as [[st' k1] h1] eqn:E1.
+    pose proof (skip_rest r c k1 (u || h1)) as SK.
+    destruct (cont_block c k1 (u || h1) h1 r) as [[r' k2] h2] eqn:E2. simpl in *.
     destruct IS as [sl1 [R1 [A1 [P1 [P2 P3]]]]].
     { intros H; apply Pre; rewrite H; simpl; apply orb_true_r. }
     exists sl1. split; [|split; [exact A1|]].
@@ -322,6 +340,7 @@ Proof.
         rewrite <- (app_nil_r tr). eapply run_bapp; [exact R1 | apply SK, Ct].
       * apply run_bapp_jump; [exact R1 | discriminate].
       * apply run_bapp_jump; [exact R1 | discriminate].
+      * apply run_bapp_jump; [exact R1 | discriminate].
     + split; [|split; assumption].
       intros E. destruct (P1 E) as [X ->]. split; [exact X | reflexivity].
 Qed.
@@ -330,11 +349,11 @@ Qed.
 (* ---- top level ------------------------------------------------------------ *)
 Theorem continue_lowering_correct_lemma b s d tr o s' d' :
   run_block b s d tr o s' d' -> clean_block b = true -> o <> OCont ->
-  forall sl, agree s sl -> (snd (cont_block (cflag 0) 1 false b) = true -> sl (cflag 0) = false) ->
-  exists sl', run_block (fst (fst (cont_block (cflag 0) 1 false b))) sl d tr o sl' d' /\ agree s' sl'.
+  forall sl, agree s sl -> (snd (cont_block (cflag 0) 1 false false b) = true -> sl (cflag 0) = false) ->
+  exists sl', run_block (fst (fst (cont_block (cflag 0) 1 false false b))) sl d tr o sl' d' /\ agree s' sl'.
 Proof.
   intros R C No sl A Pre.
-  destruct (proj2 cont_correct_all _ _ _ _ _ _ _ R C (cflag 0) 1 false sl (outside_c_S 0) (ckind_cflag 0) A) as [sl' [R' [A' _]]].
+  destruct (proj2 cont_correct_all _ _ _ _ _ _ _ R C (cflag 0) 1 false false sl (outside_c_S 0) (ckind_cflag 0) A) as [sl' [R' [A' _]]].
   { simpl. exact Pre. }
   exists sl'. split; [|exact A']. destruct o; try exact R'; congruence.
 Qed.
